@@ -7,7 +7,7 @@
    strings.  The theorems say that no modelled output depends on O, and - for fresh draws - none on the
    drawn identifiers. *)
 From Coq Require Import NArith List Bool Permutation.
-From PS Require Import Base.Chars Model.Determinism Spec.DetSpec Proofs.DeterminismP Proofs.NamesP Proofs.TrackingP.
+From PS Require Import Base.Chars Model.Determinism Spec.DetSpec Proofs.DeterminismP Proofs.NamesP Proofs.TrackingP Proofs.RedrawP.
 Import ListNotations.
 
 (* ---- iteration order ------------------------------------------------------------------- *)
@@ -121,9 +121,56 @@ Theorem C20_draw_collision_refuted :
 Proof. exact names_collision_refuted. Qed.
 Print Assumptions C20_draw_collision_refuted.
 
+(* ---- adversarial draw sequences for filter prefixes --------------------------------------- *)
+
+(* the redraw loop of SigmaFilter.apply_on_rule (draw until no detection name of the rule starts with the
+   prefix), run on ANY candidate sequence per filter application - the same draw again and again, the same
+   draw first in every application (random module re-seeded before each apply_filters call), earlier
+   prefixes coming back - accepts only prefixes that satisfy `fresh`.  The premise is draw independent:
+   shape of the candidates (what random.choices(ascii_lowercase, k=10) can return), unique dict keys, the
+   rule condition names no identifier / pattern starting with '_', every filter defines a detection and
+   only names its own *)
+Theorem C20_redraw_makes_fresh :
+  forall L r streams fs ch,
+    choose streams fs r = Some ch -> static_okb L r streams fs = true ->
+    freshb L r (combine (map fst ch) fs) [] = true.
+Proof. exact redraw_makes_fresh. Qed.
+Print Assumptions C20_redraw_makes_fresh.
+
+(* hence, for every draw sequence on which the loop terminates, a rule with any number of filters (same
+   or different detection names, `them` and wildcard selectors) resolves to the nameless specification *)
+Theorem C20_filters_any_draw_sequence :
+  forall L r streams fs ch,
+    choose streams fs r = Some ch -> static_okb L r streams fs = true ->
+    names_run r (combine (map fst ch) fs) [] = spec_names r fs [].
+Proof. exact filters_any_draws. Qed.
+Print Assumptions C20_filters_any_draw_sequence.
+
+Theorem C20_filters_draw_sequence_free :
+  forall L r fs streams streams' ch ch',
+    choose streams fs r = Some ch -> choose streams' fs r = Some ch' ->
+    static_okb L r streams fs = true -> static_okb L r streams' fs = true ->
+    names_run r (combine (map fst ch) fs) [] = names_run r (combine (map fst ch') fs) [].
+Proof. exact filters_draw_sequence_free. Qed.
+Print Assumptions C20_filters_draw_sequence_free.
+
+(* with the weaker acceptance test "none of this filter's own renamed identifiers exists yet" two filters
+   with different detection names can share a prefix, and the result depends on the draw sequence *)
+Theorem C20_weak_redraw_refuted :
+  exists r fs streams streams' ch ch',
+    choose_weak streams fs r = Some ch /\ choose_weak streams' fs r = Some ch' /\
+    static_okb 16 r streams fs = true /\ static_okb 16 r streams' fs = true /\
+    names_run r (combine (map fst ch) fs) [] <> names_run r (combine (map fst ch') fs) [].
+Proof. exact weak_redraw_refuted. Qed.
+Print Assumptions C20_weak_redraw_refuted.
+
 (* non-vacuity: the premise holds for a rule with a selector, two filters (one using `them`) and two
    added conditions *)
 Example C20_premises_inhabited :
   freshb 16 w_rule4 [(dn s_filt 97, w_filter_ok); (dn s_filt 98, w_filter_ok)]
             [(dn s_cond 97, ([97; 48], false)); (dn s_cond 98, ([97; 49], true))] = true.
 Proof. exact fresh_inhabited. Qed.
+Example C20_redraw_example :
+  (option_map (map fst) (choose [[w_pa]; [w_pa; w_pb]] [w_fa; w_fb] w_rule2) = Some [w_pa; w_pb])
+  /\ (static_okb 16 w_rule2 [[w_pa]; [w_pa; w_pb]] [w_fa; w_fb] = true).
+Proof. split; vm_compute; reflexivity. Qed.
